@@ -272,7 +272,9 @@ def file_shapes(ctx, lua, rng, count):
         code = (b'--[[\n' + b'\n'.join(per[:80]) + b'\n]]\ns=[==[\n' + b'\n'.join(per[80:160]) + b'\n]==]\n' +
                 b''.join(n + b'\n=1\n' for n in per[160:] if n[2] >= 128 and all(c >= 128 or c in b'_a1' for c in n)) + b'x=2\n' +
                 # (words in braces, percent signs, dollar signs: text, with glyphs around them)
-                b'-- {gfx} \x8e {map} \x97 {lua} {label} {version} %s ${x}\nlevels={map}\nt={sfx,music,gff}\n')
+                b'-- {gfx} \x8e {map} \x97 {lua} {label} {version} %s ${x}\nlevels={map}\nt={sfx,music,gff}\n' +
+                # (glyphs in every kind of token that can hold them: names, labels, strings, long strings, comments)
+                b'::l\x80\xff:: ' + bytes(rng.choice(allglyph[17:]) for _ in range(3)) + b'=1 goto l\x80\xff\n::\x8e::\n')
         ctx.case(code)
         try:
             back = p8_roundtrip(code, version, entry)
